@@ -300,11 +300,34 @@ def A_leaf_keys(qual, coqname, inner, keypos):
   return emit
 
 
+def A_no_hidden_state(coqname):
+  """Fail-closed recogniser (WAVE5 item 4): nothing in the module may depend on object identity, hashing, wall-clock
+  time, the environment or an unseeded generator."""
+  def emit(tree):
+    for n in ast.walk(tree):
+      if isinstance(n, ast.Call) and isinstance(n.func, ast.Name) and n.func.id in ('id', 'hash'):
+        raise Unsupported(f'call of {n.func.id}(): results would depend on object identity / PYTHONHASHSEED')
+      if isinstance(n, ast.Attribute):
+        try:
+          d = dotted(n)
+        except Unsupported:
+          continue
+        if d.startswith(('time.', 'os.environ', 'uuid.', 'random.', 'np.random.', 'numpy.random.', 'datetime.')):
+          raise Unsupported(f'use of {d}: hidden state / nondeterminism')
+      if isinstance(n, (ast.Import, ast.ImportFrom)):
+        names = [a.name for a in n.names] + ([n.module] if isinstance(n, ast.ImportFrom) and n.module else [])
+        if any(x in ('time', 'uuid', 'random', 'datetime') for x in names):
+          raise Unsupported(f'import of {names}')
+    return f'Definition {coqname} : bool := true.'
+  return emit
+
+
 MODULES = {
     'Gen_compression': {
         'src': CP,
         'preamble': 'From Coq Require Import QArith.\nFrom FV Require Import Common.CMonoid Common.NanQ Common.NanVec Common.KeyPath.\nLocal Open Scope Z_scope.\n',
         'items': [
+            A_no_hidden_state('compression_no_hidden_state'),
             A_vfun('binary_stochastic_quantize', 'gen_bsq', ['v', 'rng', 'v_min', 'v_max'],
                    [('v', 'V'), ('rng', 'U'), ('v_min', 'optQ'), ('v_max', 'optQ')]),
             A_vfun('uniform_stochastic_quantize', 'gen_usq', ['v', 'num_levels', 'rng', 'v_min', 'v_max'],
